@@ -19,6 +19,15 @@ fn arg(args: &[String], name: &str) -> Option<String> {
 fn main() {
     let args: Vec<String> = std::env::args().collect();
     let prop = args.get(1).cloned().unwrap_or_default();
+    if prop == "gen-spec" {
+        // lnv gen-spec <seed> <index>: print the generated document of a case
+        let seed: u64 = args[2].parse().unwrap();
+        let index: u64 = args[3].parse().unwrap();
+        let mut rng = rng::Rng::new(seed).fork(index);
+        let mut g = specgen::SpecGen::new(&mut rng, specgen::GenOpts::clean());
+        println!("{}", serde_json::to_string_pretty(&g.spec()).unwrap());
+        return;
+    }
     if prop == "smoke-extract" {
         extract::smoke(&args[2..]);
         return;
